@@ -461,13 +461,14 @@ namespace _ST_PRIVATE
             char32_t bigch = extract_utf8(sp, ep);
 
             conversion_error_t error = char_error(bigch);
+            if (error == conversion_error_t::success) {
+                // A 4-byte sequence can still encode a value beyond U+10FFFF
+                error = write_utf16(dest, bigch);
+            }
             if (error != conversion_error_t::success) {
                 if (validation == ST::check_validity)
                     return error;
                 *dest++ = badchar_substitute;
-            } else {
-                error = write_utf16(dest, bigch);
-                ST_ASSERT(error == conversion_error_t::success, "Input character out of range");
             }
         }
 
